@@ -272,6 +272,105 @@ func twoLimiters(limit int) sched.Spec {
 	return sched.Spec{Sc: sc, Quick: 3 - limit, Thorough: 4 - limit}
 }
 
+// badErr: an error value whose Error method itself panics when called on the typed nil pointer
+// (a panic value is any value: reporting it must not bring the process down either).
+type badErr struct{ msg string }
+
+func (e *badErr) Error() string { return e.msg }
+
+type recLogger struct{ lines []string }
+
+func (l *recLogger) Error(args ...any) { l.lines = append(l.lines, fmt.Sprint(args...)) }
+
+// oddScenario: the corners of Go / the handler plumbing. variant:
+//
+//	"nil-task"      Go(nil): the call of the nil function panics inside the worker like any other panic
+//	                (handler reached, slot and WaitGroup count given back)
+//	"weird-panic"   no handler; a task panics with a typed-nil error whose Error method panics
+//	"logpanic-0/2"  the handler is golib's own LogPanic(logger, depth)
+//
+// Each is followed by limit+1 pausing functions and a second Wait: a leaked slot or count blocks them.
+func oddScenario(limit int, variant string) sched.Spec {
+	type stT struct {
+		done    []int64
+		handled []any
+		log     recLogger
+	}
+	n2 := limit + 1
+	sc := sched.Scenario{
+		Name:   fmt.Sprintf("limit%d/odd/%s", limit, variant),
+		NoRace: true,
+		Build: func(x *core.Exec) any {
+			st := &stT{done: make([]int64, 1+n2)}
+			l := goz.NewLimiter(limit)
+			switch variant {
+			case "nil-task":
+				l.SetPanicHandler(func(v any) { st.handled = append(st.handled, v) })
+			case "logpanic-0":
+				l.SetPanicHandler(goz.LogPanic(&st.log, 0))
+			case "logpanic-2":
+				l.SetPanicHandler(goz.LogPanic(&st.log, 2))
+			}
+			x.Spawn("main", func(t *core.Thread) {
+				t.Op("Go", 0, func() any {
+					switch variant {
+					case "nil-task":
+						l.Go(nil)
+					case "weird-panic":
+						l.Go(func() { vatomic.AddInt64(&st.done[0], 1); var e *badErr; panic(error(e)) })
+					default:
+						l.Go(func() { vatomic.AddInt64(&st.done[0], 1); panic(&boom{0}) })
+					}
+					return nil
+				})
+				if x.Failed() {
+					return
+				}
+				t.Op("Wait", 1, func() any { l.Wait(); return nil })
+				if x.Failed() {
+					return
+				}
+				for j := 0; j < n2; j++ {
+					i := 1 + j
+					t.Op("Go", i, func() any {
+						l.Go(func() { core.Pause(); vatomic.AddInt64(&st.done[i], 1) })
+						return nil
+					})
+					if x.Failed() {
+						return
+					}
+				}
+				t.Op("Wait", 2, func() any { l.Wait(); return nil })
+			})
+			return st
+		},
+		Check: func(x *core.Exec, ctx any) *core.Failure {
+			st := ctx.(*stT)
+			for i, d := range st.done {
+				want := int64(1)
+				if i == 0 && variant == "nil-task" {
+					want = 0
+				}
+				if d != want {
+					return &core.Failure{Sig: "task-not-run-exactly-once", What: fmt.Sprintf("function %d ran %d times, want %d", i, d, want)}
+				}
+			}
+			switch variant {
+			case "nil-task":
+				if len(st.handled) != 1 {
+					return &core.Failure{Sig: "handler-values|nil-task", What: fmt.Sprintf("Go(nil): the panic of the nil call reached the handler %d times (%v), want once", len(st.handled), st.handled)}
+				}
+			case "logpanic-0", "logpanic-2":
+				if len(st.log.lines) != 1 || !strings.Contains(st.log.lines[0], "boom0") {
+					return &core.Failure{Sig: "handler-values|LogPanic", What: fmt.Sprintf("handler LogPanic(logger, %s): the logger received %q, want one line that shows the panic value boom0", variant[len("logpanic-"):], st.log.lines)}
+				}
+			}
+			return nil
+		},
+	}
+	return sched.Spec{Sc: sc, Quick: 2, Thorough: 3}
+}
+
 // sameValues compares by identity (the handler must get the very value the function panicked with).
 func sameValues(got, want []any) string {
 	used := make([]bool, len(got))
@@ -365,6 +464,11 @@ func main() {
 		// handler configured after the first Go, replaced after the first Wait
 		add(cfg{limit: limit, tasks: []int{ret, pnc}, batch2: 2, handler: true, late: true}, 2, 3)
 		add(cfg{limit: limit, tasks: []int{pauseRet, pausePnc, pnc}, batch2: 1, handler: true, late: true}, 2, 3)
+	}
+	for _, lim := range []int{1, 2} {
+		for _, v := range []string{"nil-task", "weird-panic", "logpanic-0", "logpanic-2"} {
+			specs = append(specs, oddScenario(lim, v))
+		}
 	}
 	// two limiters in use at the same time: each counts and waits for its own functions only
 	for _, lim := range []int{1, 2} {
